@@ -1,8 +1,13 @@
 #!/bin/sh
-# tools/try_mutant.sh <patch.diff> <PID> [extra bin/check args]  - apply a seeded change to /repo, run the check, undo it.
+# tools/try_mutant.sh <patch.diff> <PID> [extra bin/check args]
+# Applies a seeded change to a PRIVATE scratch worktree of /repo (so concurrent checks of the real /repo are not
+# disturbed), runs the check against it (VERIF_REPO), removes the worktree.  (The registered checks themselves always run
+# against /repo; to test against /repo itself: git -C /repo apply <patch>; bin/check ...; git -C /repo checkout -- .)
 P=$(readlink -f "$1"); PID=$2; shift 2
-git -C /repo apply "$P" || { echo "patch does not apply"; exit 3; }
-/verif/bin/check $PID --no-evidence "$@"; rc=$?
-git -C /repo checkout -- .
+WT=/tmp/tm_$$_$PID
+git -C /repo worktree add -f --detach "$WT" HEAD >/dev/null 2>&1 || { echo "cannot create scratch worktree"; exit 3; }
+git -C "$WT" apply "$P" || { echo "patch does not apply"; git -C /repo worktree remove --force "$WT"; exit 3; }
+VERIF_REPO="$WT" /verif/bin/check $PID --no-evidence "$@"; rc=$?
+git -C /repo worktree remove --force "$WT" >/dev/null 2>&1; rm -rf "$WT"; git -C /repo worktree prune
 echo "exit=$rc"
 exit $rc
